@@ -1,1 +1,247 @@
-// placeholder
+//! C15 — time and race-length conversions are exact, or refused - never wrong.
+use crate::common::*;
+use binrw::{BinRead, BinWrite, Endian};
+use insim::identifiers::RequestId;
+use insim::insim::{RaceLaps, Small, SmallType};
+use insim_core::duration::{binrw_parse_duration, binrw_write_duration};
+use std::io::Cursor;
+use std::time::Duration;
+
+/// all 256 race-length bytes: decode, re-encode
+#[kani::proof]
+#[kani::unwind(3)]
+fn c15_racelaps_bytes() {
+    let b: u8 = kani::any();
+    let r = RaceLaps::from(b);
+    let b2 = u8::from(r);
+    if b == 0 || b > 238 {
+        assert!(matches!(r, RaceLaps::Practice), "C15:0 and 239..=255 are practice");
+        assert!(b2 == 0, "C15:practice encodes as 0");
+    } else {
+        assert!(b2 == b, "C15:race-length byte round-trips");
+        match r {
+            RaceLaps::Laps(n) => {
+                assert!(b <= 190, "C15:1..=190 are lap counts");
+                let expect = if b < 100 { b as usize } else { (b as usize - 100) * 10 + 100 };
+                assert!(n == expect, "C15:lap count as specified");
+            }
+            RaceLaps::Hours(h) => {
+                assert!(b >= 191 && h == b as usize - 190, "C15:191..=238 are 1..=48 hours");
+            }
+            _ => assert!(false, "C15:valid byte is not practice"),
+        }
+    }
+    kani::cover!(b == 190, "1000 laps");
+    kani::cover!(b == 238, "48 hours");
+}
+
+/// every lap count (usize): encodes to a byte that decodes to the same count rounded down to the
+/// field's resolution, or to practice when out of range - never to another value
+#[kani::proof]
+#[kani::unwind(3)]
+fn c15_racelaps_laps_encode() {
+    let n: usize = kani::any();
+    let b = u8::from(RaceLaps::Laps(n));
+    match RaceLaps::from(b) {
+        RaceLaps::Laps(m) => {
+            assert!(n >= 1 && n <= 1000, "C15:out-of-range lap count must fall back to practice");
+            if n < 100 {
+                assert!(m == n, "C15:1..=99 laps exact");
+            } else {
+                assert!(m <= n && n - m < 10 && m % 10 == 0, "C15:100..=1000 laps rounded down to tens");
+            }
+        }
+        RaceLaps::Practice => assert!(n == 0 || n > 1000, "C15:in-range lap count must not become practice"),
+        _ => assert!(false, "C15:lap count decoded as hours"),
+    }
+    kani::cover!(n == 1000, "1000 laps");
+    kani::cover!(n > 1000, "too many laps");
+}
+
+/// every hour count (usize)
+#[kani::proof]
+#[kani::unwind(3)]
+fn c15_racelaps_hours_encode() {
+    let h: usize = kani::any();
+    let b = u8::from(RaceLaps::Hours(h));
+    match RaceLaps::from(b) {
+        RaceLaps::Hours(x) => {
+            assert!(x == h, "C15:hours decoded as a different number of hours");
+            assert!(h >= 1 && h <= 48, "C15:out-of-range hours must fall back to practice");
+        }
+        RaceLaps::Practice => assert!(h == 0 || h > 48, "C15:in-range hours must not become practice"),
+        _ => assert!(false, "C15:hours decoded as a lap count"),
+    }
+    kani::cover!(h == 48, "48 hours");
+    kani::cover!(h == 0, "0 hours");
+    kani::cover!(h == 66, "66 hours (190 + 66 wraps a byte)");
+}
+
+macro_rules! duration_harnesses {
+    ($rt:ident, $enc:ident, $t:ty, $scale:expr, $n:expr) => {
+        /// every wire value of this field type decodes to a duration that re-encodes to it
+        #[kani::proof]
+        #[kani::unwind(10)]
+        #[kani::stub(alloc::fmt::format, stub_format)]
+        fn $rt() {
+            let w: $t = kani::any();
+            let img = w.to_le_bytes();
+            let mut c = Cursor::new(&img[..]);
+            let d = binrw_parse_duration::<$t, { $scale as u64 }, _>(&mut c, Endian::Little, ());
+            match &d {
+                Ok(d) => {
+                    assert!(d.as_millis() == (w as u128) * $scale, "C15:wire value scaled to milliseconds");
+                    let mut out = [0xAAu8; $n];
+                    let mut wr = Cursor::new(&mut out[..]);
+                    let r = binrw_write_duration::<$t, { $scale as u128 }, _>(d, &mut wr, Endian::Little, ());
+                    assert!(r.is_ok(), "C15:decoded duration re-encodes");
+                    assert!(<$t>::from_le_bytes(out) == w, "C15:time field round-trips");
+                    std::mem::forget(r);
+                }
+                Err(_) => assert!(false, "C15:every wire value decodes"),
+            }
+            kani::cover!(w == <$t>::MAX, "largest wire value");
+            std::mem::forget(d);
+        }
+
+        /// an arbitrary duration is rounded down to the field's resolution, or refused
+        #[kani::proof]
+        #[kani::unwind(10)]
+        #[kani::stub(alloc::fmt::format, stub_format)]
+        fn $enc() {
+            let secs: u64 = kani::any();
+            let nanos: u32 = kani::any();
+            kani::assume(secs <= (1u64 << 34) && nanos < 1_000_000_000);
+            let d = Duration::new(secs, nanos);
+            let ms: u128 = (secs as u128) * 1000 + (nanos / 1_000_000) as u128;
+            let mut out = [0xAAu8; $n];
+            let mut wr = Cursor::new(&mut out[..]);
+            let r = binrw_write_duration::<$t, { $scale as u128 }, _>(&d, &mut wr, Endian::Little, ());
+            match &r {
+                Ok(()) => {
+                    let w = <$t>::from_le_bytes(out) as u128;
+                    assert!(w * $scale <= ms && ms < (w + 1) * $scale, "C15:duration rounded down to the field resolution");
+                    kani::cover!(w == <$t>::MAX as u128, "largest representable duration");
+                }
+                Err(_) => {
+                    assert!(ms >= (<$t>::MAX as u128 + 1) * $scale, "C15:representable duration refused");
+                    kani::cover!(true, "out-of-range duration refused");
+                }
+            }
+            std::mem::forget(r);
+        }
+    };
+}
+
+/// durations far beyond every field's range (up to Duration::MAX, i.e. millisecond counts that do
+/// not fit 64 bits) must be refused, never written as some in-range value
+macro_rules! duration_huge {
+    ($name:ident, $t:ty, $scale:expr, $n:expr) => {
+        #[kani::proof]
+        #[kani::unwind(10)]
+        #[kani::stub(alloc::fmt::format, stub_format)]
+        fn $name() {
+            let secs: u64 = kani::any();
+            let nanos: u32 = kani::any();
+            kani::assume(secs > (1u64 << 34) && nanos < 1_000_000_000);
+            let d = Duration::new(secs, nanos);
+            let mut out = [0xAAu8; $n];
+            let mut wr = Cursor::new(&mut out[..]);
+            let r = binrw_write_duration::<$t, { $scale as u128 }, _>(&d, &mut wr, Endian::Little, ());
+            let refused = r.is_err();
+            std::mem::forget(r);
+            assert!(refused, "C15:duration beyond the field range was written");
+            kani::cover!(secs == u64::MAX, "Duration::MAX seconds");
+        }
+    };
+}
+duration_huge!(c15_duration_u16_s1_huge, u16, 1u128, 2);
+duration_huge!(c15_duration_u16_s10_huge, u16, 10u128, 2);
+duration_huge!(c15_duration_u32_s1_huge, u32, 1u128, 4);
+duration_huge!(c15_duration_u32_s10_huge, u32, 10u128, 4);
+duration_harnesses!(c15_duration_u16_s1_wire, c15_duration_u16_s1_encode, u16, 1u128, 2);
+duration_harnesses!(c15_duration_u16_s10_wire, c15_duration_u16_s10_encode, u16, 10u128, 2);
+duration_harnesses!(c15_duration_u32_s1_wire, c15_duration_u32_s1_encode, u32, 1u128, 4);
+duration_harnesses!(c15_duration_u32_s10_wire, c15_duration_u32_s10_encode, u32, 10u128, 4);
+
+fn small_scale(discrim: u8) -> u128 {
+    // SSP, SSG, STP, RTP are in hundredths of a second; NLI in milliseconds (InSim.txt)
+    if discrim == 7 { 1 } else { 10 }
+}
+
+/// SMALL timed sub-types: every 32-bit value of the given sub-type decodes to a duration that
+/// re-encodes to it (one harness per sub-type: the 128-bit millisecond arithmetic is what costs)
+macro_rules! small_wire {
+    ($name:ident, $discrim:expr) => {
+        #[kani::proof]
+        #[kani::unwind(8)]
+        #[kani::stub(alloc::fmt::format, stub_format)]
+        fn $name() {
+            let discrim: u8 = $discrim;
+            let uval: u32 = kani::any();
+            let u = uval.to_le_bytes();
+            let img = [0u8, discrim, u[0], u[1], u[2], u[3]];
+            let mut c = Cursor::new(&img[..]);
+            let r = Small::read_le(&mut c);
+            match &r {
+                Ok(p) => {
+                    let d = match &p.subt {
+                        SmallType::Ssp(d) | SmallType::Ssg(d) | SmallType::Stp(d) | SmallType::Rtp(d) | SmallType::Nli(d) => *d,
+                        _ => { assert!(false, "C15:timed sub-type decoded as another kind"); Duration::ZERO }
+                    };
+                    assert!(d == Duration::from_millis(uval as u64 * small_scale(discrim) as u64), "C15:SMALL value scaled to milliseconds");
+                    let mut out = [0xAAu8; 6];
+                    let mut w = Cursor::new(&mut out[..]);
+                    let wr = p.write_le(&mut w);
+                    assert!(wr.is_ok(), "C15:decoded SMALL re-encodes");
+                    assert!(out[1] == discrim && out[2] == u[0] && out[3] == u[1] && out[4] == u[2] && out[5] == u[3],
+                        "C15:SMALL time value round-trips");
+                    std::mem::forget(wr);
+                }
+                Err(_) => assert!(false, "C15:timed SMALL decodes"),
+            }
+            kani::cover!(uval == u32::MAX, "largest wire value");
+            std::mem::forget(r);
+        }
+    };
+}
+small_wire!(c15_small_ssp_wire, 1);
+small_wire!(c15_small_ssg_wire, 2);
+small_wire!(c15_small_stp_wire, 5);
+small_wire!(c15_small_rtp_wire, 6);
+small_wire!(c15_small_nli_wire, 7);
+
+fn small_timed(k: u8, d: Duration) -> SmallType {
+    match k { 0 => SmallType::Ssp(d), 1 => SmallType::Ssg(d), 2 => SmallType::Stp(d), 3 => SmallType::Rtp(d), _ => SmallType::Nli(d) }
+}
+
+/// SMALL timed sub-types: arbitrary duration is rounded down to the resolution, or refused
+#[kani::proof]
+#[kani::unwind(8)]
+#[kani::stub(alloc::fmt::format, stub_format)]
+fn c15_small_time_encode() {
+    let secs: u64 = kani::any();
+    let nanos: u32 = kani::any();
+    kani::assume(secs <= (1u64 << 34) && nanos < 1_000_000_000);
+    let d = Duration::new(secs, nanos);
+    let ms: u128 = (secs as u128) * 1000 + (nanos / 1_000_000) as u128;
+    let k: u8 = kani::any();
+    kani::assume(k < 5);
+    let scale: u128 = if k == 4 { 1 } else { 10 };
+    let p = Small { reqi: RequestId(0), subt: small_timed(k, d) };
+    let mut out = [0xAAu8; 6];
+    let mut w = Cursor::new(&mut out[..]);
+    let r = p.write_le(&mut w);
+    match &r {
+        Ok(()) => {
+            let wv = u32::from_le_bytes([out[2], out[3], out[4], out[5]]) as u128;
+            assert!(wv * scale <= ms && ms < (wv + 1) * scale, "C15:SMALL duration rounded down to the field resolution");
+        }
+        Err(_) => {
+            assert!(ms >= (u32::MAX as u128 + 1) * scale, "C15:representable SMALL duration refused");
+            kani::cover!(true, "out-of-range SMALL duration refused");
+        }
+    }
+    std::mem::forget(r);
+    std::mem::forget(p);
+}
